@@ -74,7 +74,26 @@ func genDescAt(t *rapid.T, depth int, c *gctx, allowResult bool) *desc {
 		d.n = rapid.IntRange(1, 3).Draw(t, "arrlen")
 		d.elem = genDescAt(t, depth+1, c, false)
 	case kVec:
-		d.elem = nonEmptyEnc(genDescAt(t, depth+1, c, false))
+		d.elem = genDescAt(t, depth+1, c, false)
+		if zeroSizeSeqElems {
+			// Vec<()>-like types are legal SCALE: the canonical encoding of such a vector
+			// is its length prefix alone (round trip only; see nonEmptyEnc for decoding
+			// of arbitrary input)
+			if rapid.IntRange(0, 11).Draw(t, "zerosize") == 0 {
+				d.elem = &desc{k: kStruct}
+				if rapid.Bool().Draw(t, "zsskip") {
+					d.elem.fields = []field{{tagSkip, genPrim(t, []kind{kI32, kString, kU8, kBool})}}
+				}
+				if rapid.IntRange(0, 3).Draw(t, "zsarr") == 0 {
+					d.elem = &desc{k: kArray, n: rapid.IntRange(1, 3).Draw(t, "zsarrlen"), elem: d.elem}
+				}
+			}
+			if d.elem.minSize() == 0 {
+				kit.Label("vec-of-zero-size-elements")
+			}
+		} else {
+			d.elem = nonEmptyEnc(d.elem)
+		}
 		if d.elem.k == kU8 && !d.elem.named {
 			return &desc{k: kBytes} // []uint8 is []byte: a byte string
 		}
@@ -148,6 +167,10 @@ func genDescAt(t *rapid.T, depth int, c *gctx, allowResult bool) *desc {
 	}
 	return d
 }
+
+// zeroSizeSeqElems: the round-trip check (C11) switches this on; checks that
+// decode arbitrary input keep sequence elements at >= 1 byte.
+var zeroSizeSeqElems = false
 
 // nonEmptyEnc: elements of sequences must occupy at least one byte (a
 // sequence of zero-sized elements is not described by its input).
